@@ -323,11 +323,14 @@ package keeper
 //@ requires [rotation_counter_within_the_list] oracle.CyclelistSequencer < count(oracle.Cyclelist)
 //@ requires [round_counter_below_2_64] oracle.QuerySequencer < 18446744073709551615
 //@ requires [windows_fit] forall q bytes :: forall i int :: has(oracle.Query, pair(q, i)) ==> blockheight(ctx) + oracle.Query[pair(q, i)].RegistrySpecBlockWindow < 18446744073709551616
+//@ requires [rounds_are_stored_under_their_id] forall q bytes :: forall i int :: has(oracle.Query, pair(q, i)) ==> oracle.Query[pair(q, i)].Id == i
 //@ modifies oracle.Query, oracle.CyclelistSequencer, oracle.QuerySequencer
 //@ ensures [no_rotation_while_the_current_window_is_open] ret(CurrentQuery, 1) == nil && ret(CurrentQuery, 0).Expiration > blockheight(ctx) && !called(GetCyclelist) ==> err == nil && nothing_written()
 //@ ensures [open_window_is_detected] old(oracle.CyclelistSequencer) != oracle.CyclelistSequencer ==> called(GetCyclelist)
 //@ ensures [moves_to_the_next_query_wrapping_around] called(GetCyclelist) ==> oracle.CyclelistSequencer == (old(oracle.CyclelistSequencer) + 1 < count(oracle.Cyclelist) ? old(oracle.CyclelistSequencer) + 1 : 0)
 //@ ensures [rotation_counter_stays_within_the_list] oracle.CyclelistSequencer < count(oracle.Cyclelist)
+//@ ensures [rounds_stay_stored_under_their_id] forall q bytes :: forall i int :: has(oracle.Query, pair(q, i)) ==> oracle.Query[pair(q, i)].Id == i
+//@ ensures [a_new_or_reopened_round_gets_the_window_of_its_own_spec] forall q bytes :: forall i int :: has(oracle.Query, pair(q, i)) && (!old(has(oracle.Query, pair(q, i))) || oracle.Query[pair(q, i)].Expiration != old(oracle.Query[pair(q, i)].Expiration)) && blockheight(ctx) + oracle.Query[pair(q, i)].RegistrySpecBlockWindow < 18446744073709551616 ==> oracle.Query[pair(q, i)].Expiration == blockheight(ctx) + oracle.Query[pair(q, i)].RegistrySpecBlockWindow
 
 // ---- end-of-block aggregation of closed rounds (C07, C02, C06) ----
 // A round (Query entry) with HasRevealedReports and Expiration <= block height is aggregated and removed.
